@@ -2,8 +2,7 @@
    The dispatch model (Model/C20_Inertia.v) mirrors spatialvector.py as it is; on every run it is evaluated
    in Coq on every cell of the finite table and compared with the implementation's outcome on that cell.
    Here: the model agrees with what the property asks for, for ALL lengths (case analysis), the enumerated
-   table by vm_compute, and the one place where the faithful model violates the property
-   (_refuted + _partial: an acceleration operand of cross). *)
+   table by vm_compute.  No _refuted/_partial pair is left: on HEAD 66a8f3b the faithful model meets the full statements. *)
 From Coq Require Import List Bool Arith Lia.
 From SM Require Import Model.C20_Inertia.
 Import ListNotations.
@@ -62,31 +61,26 @@ Proof. intros l n. split; reflexivity. Qed.
 Print Assumptions C20_neg_copy_keep_class.
 
 (* ---------------------------------------------------------------- cross product: operand classes, n-valued right operand
-   FULL STATEMENT (false of the faithful model):
-     forall l r n, agrees (cross_model l r n) (cross_expected l r n) = true
-   i.e. a motion vector crossed with ANY motion vector gives a motion vector.  The code tests
-   isinstance(other, SpatialVelocity), so an acceleration operand is rejected (left as it is in /repo). *)
-Theorem C20_cross_table_refuted : exists l r n,
-  is_motion l = true /\ r = SV Acc /\ agrees (cross_model l r n) (cross_expected l r n) = false.
-Proof. exists Vel, (SV Acc), 1%nat. repeat split. Qed.
-Print Assumptions C20_cross_table_refuted.
-
-Theorem C20_cross_table_partial : forall l r n, r <> SV Acc -> agrees (cross_model l r n) (cross_expected l r n) = true.
+   a motion vector crossed with ANY motion vector (velocity or acceleration) gives a motion vector, crossed with a force
+   vector a force vector, one per value of the right operand; everything else is rejected.
+   (Before /repo 66a8f3b the code tested isinstance(other, SpatialVelocity) and rejected an acceleration operand; the
+   _refuted/_partial pair that stood here is replaced by the full statement.) *)
+Theorem C20_cross_table_full : forall l r n, agrees (cross_model l r n) (cross_expected l r n) = true.
 Proof.
-  intros l r n H. destruct l; destruct r as [[| | |]|]; try reflexivity; try congruence;
+  intros l r n. destruct l; destruct r as [[| | |]|]; try reflexivity;
     unfold cross_model, cross_expected, construct, agrees, is_motion; simpl; rewrite Nat.eqb_refl; reflexivity.
 Qed.
-Print Assumptions C20_cross_table_partial.
+Print Assumptions C20_cross_table_full.
 
 Theorem C20_cross_table : length cross_cells = 100%nat /\
-  forallb (fun '(l, r, n) => match r with SV Acc => true | _ => agrees (cross_model l r n) (cross_expected l r n) end) cross_cells = true.
+  forallb (fun '(l, r, n) => agrees (cross_model l r n) (cross_expected l r n)) cross_cells = true.
 Proof. split; vm_compute; reflexivity. Qed.
 Print Assumptions C20_cross_table.
 
 (* force classes have no cross product at all; motion x* force is a force for both force classes; one result per value *)
 Theorem C20_cross_classes : forall r n,
   (exists e, cross_model Frc r n = Raise e) /\ (exists e, cross_model Mom r n = Raise e) /\
-  cross_model Vel (SV Vel) n = Value Acc n /\ cross_model Vel (SV Frc) n = Value Frc n /\ cross_model Vel (SV Mom) n = Value Frc n.
+  cross_model Vel (SV Vel) n = Value Acc n /\ cross_model Vel (SV Acc) n = Value Acc n /\ cross_model Vel (SV Frc) n = Value Frc n /\ cross_model Vel (SV Mom) n = Value Frc n.
 Proof. intros r n. repeat split; eexists; reflexivity. Qed.
 Print Assumptions C20_cross_classes.
 
